@@ -33,6 +33,11 @@ def part_values(rng, cls, n, k=2):
         return [rng.choice(pool) for _ in range(n)]
     if cls == "big":
         return [rng.randint(1, 2 ** rng.choice([20, 30, 40])) for _ in range(n)]
+    if cls == "bignear":
+        # large and nearly equal: relative differences ~1e-9 .. 1e-13 while every sum is still an exact float64 integer
+        base = rng.choice([10 ** 9, 10 ** 10, 10 ** 12, 2 ** 40, 10 ** 14])
+        n = min(n, 10)
+        return [base * rng.choice([1, 1, 1, 2]) + rng.randint(0, 50) for _ in range(n)]
     if cls == "huge":
         # near the float64-exactness limit of the property's scope: total stays below 2^52
         n = min(n, 6)
@@ -224,6 +229,11 @@ def cover_instance(rng, cls, nmax=12):
     if cls == "planted":
         C, v, m = planted_packing(rng, m=rng.randint(1, 4), C=rng.choice([10, 30, 100]), nmax=nmax, max_per_bin=4)
         return C, v
+    if cls == "widerange":
+        C = rng.choice([6 * 10 ** 9, 3 * 2 ** 40, 10 ** 12, 2 ** 45, 6 * 10 ** 14])
+        n = rng.randint(2, nmax)
+        pts = [C // 2, C // 2 + 1, C // 2 - 1, C // 3, C // 3 + 1, C // 3 - 1, C, C - 1, 1, 2, 1000, C // 6, 2 * C // 3, C + 1]
+        return C, [max(1, rng.choice(pts) if rng.random() < 0.8 else rng.randint(1, C)) for _ in range(n)]
     if cls == "worst":
         k = rng.randint(1, 3)
         fam = rng.choice(["nfd", "twothirds", "threequarters"])
